@@ -303,3 +303,23 @@ def run(facts, rep, tier):
     c04.rule_r6(facts, rep, "C18-R6b")
     rule_r4(facts, rep)
     rule_r5(facts, rep)
+    rep.rule("C18-R7", "Every heading that ends a path is listed: audited inventory of dropping adapters (filter / take / skip / dedup / find ...) in the symbol handlers and the path "
+             "renderers; a new one is reported.")
+    from .common import droppers_inventory
+    n = droppers_inventory(facts, rep, "C18-R7", ["Server::handle_workspace_symbols", "Server::handle_document_symbols", "NodePathExt>::nested_render", "NodePathExt>::to_nested_symbol",
+                                                 "liwe::graph::path::graph_to_paths", "Database::global_search", "Graph::search_paths"], {
+        ("Server::handle_workspace_symbols", "filter(|c0|!c0.name.is_empty())"): "entries whose rendered name is empty (headings without text) cannot be shown",
+        ("Server::handle_document_symbols", "filter(|c0|!c0.name.is_empty())"): "entries whose rendered name is empty cannot be shown",
+        ("Server::handle_document_symbols", "filter(|c0|(c0.ids().len()<4))"): "documentSymbol shows at most three levels below the note (documented nesting limit of the outline view)",
+        ("Server::handle_document_symbols", "filter(|c0|(c0.ids().len()>1))"): "the note's own first heading is the container, not a symbol inside it; also guards drop_first()",
+        ("Server::handle_document_symbols", "filter(|c0|(c0.contains(v?)||c0.contains(v?)))"): "selects the paths that run through this note (its first block or its root)",
+        ("liwe::graph::path::graph_to_paths", "filter(|c0|!matchc0{GraphNode::Empty=>true,_=>false})"): "tombstones are not nodes of any note",
+        ("liwe::graph::path::graph_to_paths", "filter(|c0|!P0.node(c0.id()).is_in_list())"): "list items are not headings",
+        ("liwe::graph::path::graph_to_paths", "filter(|c0|!c0.ids.is_empty())"): "a node that is not a section yields no path",
+        ("liwe::graph::path::graph_to_paths", "filter(|c0|{(P0.get_block_references_to(&P0.node_key(c0.first_id())).is_empty()&&P0.node(c0.first_id()).to_parent().u"): "keeps the paths that start at a root: first heading of a note that no other note includes (C18-R2 / R3 check its parts)",
+        ("NodePathExt>::nested_render", "last()"): "the symbol's own name is the last path element",
+        ("NodePathExt>::nested_render", "skip(1)"): "the container (first element) is rendered separately",
+        ("liwe::graph::path::graph_to_paths", "dedup()"): "sorted().dedup(): the same path can be reached through two referrers",
+        ("Database::global_search", "take(100)"): "documented limit of 100 entries (C18-R4 checks it comes after the sort)",
+    }, "headings / paths")
+    rep.floor("C18-R7", "dropping adapters audited in the symbol path", n, 8)
